@@ -26,7 +26,12 @@ PAYLOADS = [
     "__import__('ctypes').CDLL(None)",
     # plain dotted names (no call): resolving one means importing the module it names
     "canary_mod.Hook", "canary_mod.run", "canary_mod.x", "canary_mod.sub.Thing", "os.path.join", "subprocess.Popen",
+    # bare names of callables that live in `builtins` (the audit worker plants the two canaries there and records calls)
+    "canary_call", "CanaryType", "exit", "breakpoint",
 ]
+# what an add_argument(type=...) of the analysed source may name: a converter is a callable by nature
+TYPE_NAMES = ("int", "str", "eval", "exec", "__import__", "canary_call", "CanaryType", "exit", "quit", "breakpoint", "print", "input",
+              "help", "globals", "license")
 PROSE = [
     "`__import__('os').system('id')`", "`os.system` or `subprocess.Popen`", "list of `open`", "one of `a` or `b`",
     "path/to|thing", "`eval` or `exec`", "Can be `__import__` or `print`", "'open' or \"exec\"", "list of 'os.system'",
@@ -170,8 +175,13 @@ def adversarial_module(r, scratch):
     lines += ["", "def set_cli_args(argument_parser):", '    """%s"""' % docstring(["argument_parser"], 1),
               "    argument_parser.description = %r" % adversarial_doc(r)]
     for nm in names:
+        if r.random() < 0.4:
+            # a required option without default: nothing but the converter's name says what its value looks like
+            lines.append("    argument_parser.add_argument('--%s', type=%s, help=%r, required=True)" % (
+                nm, r.choice(TYPE_NAMES), r.choice(("status callback", "the hook", adversarial_doc(r)))))
+            continue
         lines.append("    argument_parser.add_argument('--%s', type=%s, help=%r, default=%s)" % (
-            nm, r.choice(("int", "str", "eval", "exec", "__import__")), adversarial_doc(r), r.choice(PAYLOADS)))
+            nm, r.choice(TYPE_NAMES), adversarial_doc(r), r.choice(PAYLOADS)))
     lines += ["    return argument_parser", "", "def func(%s) -> %s:" % (
         ", ".join("%s: %s = %s" % (nm, r.choice(("int", r.choice(PAYLOADS))), r.choice(PAYLOADS)) for nm in names),
         r.choice(PAYLOADS)), '    """%s"""' % docstring(names, 1), "    return None", "", "VALUE = %s" % r.choice(PAYLOADS), ""]
